@@ -125,6 +125,37 @@ pub fn run(out: &mut Out, tier: &str, rng: &mut Rng) {
             }
         }
     }
+    // ---- what a FILTERED network delivers: a frame the filter skips, then a frame it passes, both waiting when recv is called
+    // once; the delivered frame is the second one, masked and padded as any received frame (whatever the first one carried)
+    {
+        let bus = Bus::attach("vcan17g");
+        let rt = tokio::runtime::Builder::new_current_thread().enable_all().build().unwrap();
+        let name = glonax::j1939::NameBuilder::default().identity_number(1).build();
+        for (k, (l1, l2)) in [(8u8, 3u8), (8, 0), (5, 2), (3, 8), (8, 8), (0, 1), (7, 6)].iter().enumerate() {
+            for accept in [true, false] {
+                let (skipped, passed) = (0x18FE_F227u32, 0x18EA_274Au32);
+                // accept list on the second frame's source / reject list on the first frame's source
+                let (it, txt) = if accept { (FilterItem::with_source_address(0x4A), "*.*.74.*") } else { (FilterItem::with_source_address(0x27), "*.*.39.*") };
+                let mut f = if accept { Filter::accept() } else { Filter::reject() };
+                f.push(it);
+                let d1: Vec<u8> = (0..8).map(|i| 0x11u8.wrapping_mul(i + 1 + k as u8)).collect();
+                let d2: Vec<u8> = (0..8).map(|i| 0xA1u8.wrapping_add(i)).collect();
+                let (r1, r2) = (Bus::raw(skipped | 0x8000_0000, *l1, &d1), Bus::raw(passed | 0x8000_0000, *l2, &d2));
+                let o = rt.block_on(async {
+                    let mut net = ControlNetwork::bind("vcan17g", &name).expect("bind on emulated bus").with_filter(f);
+                    bus.inject(&r1);
+                    bus.inject(&r2);
+                    match tokio::time::timeout(std::time::Duration::from_millis(400), net.recv()).await {
+                        Ok(Ok(())) => fmt::frame(net.frame().unwrap()),
+                        Ok(Err(e)) => format!("ERR:{:?}", e.kind()),
+                        Err(_) => "TIMEOUT".into(),
+                    }
+                });
+                out.count("frx: skipped frame then passed frame in one recv");
+                out.case(&format!("frx {} {} {} {}", if accept { "A" } else { "R" }, txt, hex(&r1), hex(&r2)), &o, true);
+            }
+        }
+    }
     // ---- filters ----
     let probe_ids: Vec<u32> = {
         let mut v = vec![0x0CB3_4A27u32, 0x18FE_CA00, 0x18EA_FF27, 0x0CFF_0227, 0x18EF_2700, 0x1CF0_0427, 0x18EA_FE27, 0x18EA_0027];
